@@ -16,7 +16,7 @@ import (
 // RuleI1: file access is confined to names the validator accepted, joined to the
 // including file's directory.
 func RuleI1(c *Ctx) {
-	sc := c.Run.Begin("I1", "the only file-system calls of the library are os.Stat/os.ReadFile behind INCLUDE and the reader of the root file; the INCLUDE path is filepath.Join(filepath.Dir(<current file>), p) with p the very value the name validator accepted (its error returns before the Join), and ReadFile receives the path Stat accepted", 2)
+	sc := c.Run.Begin("I1", "the only file-system calls of the library are os.Stat/os.ReadFile behind INCLUDE and the reader of the root file; the INCLUDE path is filepath.Join(filepath.Dir(<current file>), p) with p the very value the name validator accepted (its error returns before the Join), and ReadFile receives the path Stat accepted", 1)
 	defer sc.End()
 	corePk := c.P.Pkg("core")
 	if corePk == nil {
